@@ -427,6 +427,9 @@ func (n *fakeNet) shut(c *fakeConn, resetStreams bool) {
 		}
 	}
 	n.mu.Unlock()
+	if c.gone != nil {
+		c.goneOnce.Do(func() { close(c.gone) })
+	}
 	if resetStreams {
 		c.mu.Lock()
 		ss := append([]*fakeStream(nil), c.streams...)
@@ -455,6 +458,10 @@ type fakeConn struct {
 	limited       bool
 	dir           network.Direction
 	closed        atomic.Bool
+	// gone (optional; created by whoever builds the connection) is closed when the
+	// connection is shut: the remote side of a stream can wait for "the connection is gone".
+	gone     chan struct{}
+	goneOnce sync.Once
 
 	mu      sync.Mutex
 	streams []*fakeStream
